@@ -2,7 +2,7 @@
 # Builds $NV_SRC (default /repo, the current working tree) into /verif/build/<variant>-<hash>/,
 # runs harness binaries (optionally sharded over the cores), merges their result lines,
 # applies KNOWN_FINDINGS.txt and writes evidence/<ID>.json.
-import fcntl, hashlib, json, os, shutil, subprocess, sys, time, glob
+import fcntl, hashlib, json, os, shutil, signal, subprocess, sys, time, glob
 
 VERIF = os.path.dirname(os.path.dirname(os.path.abspath(__file__)))
 NV_SRC = os.environ.get("NV_SRC", "/repo")
@@ -253,15 +253,19 @@ def run_shards(exe, args, nshards, timeout, env=None, res=None, tag="h"):
         cmd = [exe] + list(args) + ["shard=%d" % i, "nshards=%d" % nshards, "out=" + of]
         lf = open(of + ".log", "w")
         procs.append((i, of, subprocess.Popen(cmd, stdout=lf, stderr=subprocess.STDOUT, env=e, cwd=rd,
-                                              stdin=subprocess.DEVNULL), lf))
+                                              stdin=subprocess.DEVNULL, start_new_session=True), lf))
     for i, of, p, lf in procs:
         left = max(1, timeout - (time.time() - t0))
         try:
             rc = p.wait(timeout=left)
         except subprocess.TimeoutExpired:
-            p.kill()
-            p.wait()
             rc = -999
+        # sweep the whole process group: forked explorer children must not outlive their shard
+        try:
+            os.killpg(p.pid, 9)
+        except (ProcessLookupError, PermissionError):
+            pass
+        p.wait()
         lf.close()
         res.merge_file(of)
         if rc != 0:
